@@ -148,7 +148,12 @@ def build_eh_frame(rng, le, asz, address, names, aug=None):
     section = len(body).to_bytes(4, bo) + body
     expect = [dict(kind='CIE', offset=0, instrs=cie_instrs, code_align=code_align, data_align=data_align,
                    aug=aug, aug_bytes=augdata if has_z else b'', aug_fields=aug_expect if has_z else {})]
-    for _ in range(2):
+    for i_fde in range(2):
+        if i_fde == 1 and rng.random() < 0.3:
+            # a zero terminator in the middle of the section (between the contributions of two objects): an entry of its
+            # own kind; the entries after it are still entries of the section
+            expect.append(dict(kind='ZERO', offset=len(section)))
+            section += (0).to_bytes(4, bo)
         off = len(section)
         k, signed = ENC[fde_enc & 0x0f]
         width = asz if k == 'ADDR' else (4 if k in ('ULEB', 'SLEB') else k)
